@@ -15,7 +15,7 @@ from vlib.common import Outcome, Violation
 PROPERTY = "C16"
 RULE = ("(exhaustive) every entry of KNOWN_SETTINGS x every non-empty subset of the sources able to express it (command line, "
         "GUNICORN_CMD_ARGS, config file, framework dict) x every ordered pair of distinct valid values of its validator family "
-        "(families include falsy values: 0, '', False, and list-valued/append options) ; plus one invalid value per validator family in "
+        "(families include falsy values: 0, '', False, None where the validator takes it, and list-valued/append options) ; plus one invalid value per validator family in "
         "each source alone and below a valid higher-priority mention; plus -c/--config given by CLI vs environment; plus Hypothesis-drawn "
         "mixes of 1-6 settings over random source subsets. Oracle: priority fold CLI > env > file > framework dict > default on the "
         "validator's normal form, every unmentioned setting equals its built-in default, an invalid value => SystemExit != 0. "
@@ -145,6 +145,18 @@ def build_families(scratch, config, util):
         if name == "paste":
             flag = None        # --paste imports paste.deploy at load time, which is not installed here: file/dict sources only
             vals = [(v[0], None) for v in vals]
+        # None in a config file / framework dict is a mention like any other: valid where the validator takes it, invalid elsewhere
+        if not any(v[0] is None for v in vals) and not any(b[0] is None for b in bad):
+            try:
+                old = sys.stderr
+                sys.stderr = io.StringIO()
+                try:
+                    cls.validator(None)
+                finally:
+                    sys.stderr = old
+                vals = vals + [(None, None)]
+            except Exception:      # noqa
+                bad = bad + [(None, None)]
         fam[name] = {"vals": vals, "bad": bad, "cli": bool(flag), "validator": cls.validator}
     return fam
 
